@@ -38,12 +38,12 @@ def replies(tier):
 
 
 def dimensions(tier):
-    return {'replies': len(replies(tier)), 'list_length': 2, 'sort': 2, 'location_subsets': 92, 'scopes': len(SCOPES)}
+    return {'replies': len(replies(tier)), 'list_length': 2, 'sort': 3, 'location_subsets': 92, 'scopes': len(SCOPES)}
 
 
 def cases(tier):
     out = []
-    for so in ('date', 'path'):
+    for so in ('date', 'path', 'none'):
         for n in (1, 4):
             for rp in replies(tier):
                 out.append({'part': 'a', 'reply': rp, 'n': n, 'sort': so})
